@@ -430,6 +430,16 @@ class Lib:
             ex.used_lib.add("len(): uninterpreted cardinality with axioms n>=0, n=0 <=> empty, n=1 <=> singleton, |S+x| = |S|+1")
         return d(c.mem)
 
+    def card_strict_subset(self, ex, Bset, esort, st):
+        """lemma instance for one finite set B: every strict subset of B has fewer elements (a fact of finite cardinality that
+        the background axioms do not include)"""
+        d0 = self.card(ex, Coll("frozenset", esort, Bset), st)
+        d = self.card_fns[str(esort)]
+        A, x = fresh("ca", set_sort(esort)), fresh("x", esort)
+        ex.assumed.add("cardinality: a strict subset of a finite set has fewer elements (instances supplied by contracts)")
+        return z3.ForAll([A], z3.Implies(z3.And(z3.ForAll([x], z3.Implies(A[x], Bset[x])), z3.Exists([x], z3.And(Bset[x], z3.Not(A[x])))),
+                                         z3.And(0 <= d(A), d(A) < d0)), patterns=[d(A)])
+
     def before_fn(self, ex, esort):
         """Before(tok, a, b): a is listed before b in the (unknown) sequence order denoted by the order token.
         Only totality/asymmetry on distinct elements is axiomatised (all that pair enumeration depends on)."""
@@ -480,6 +490,18 @@ class Lib:
         if name in ("itertools.combinations", "itertools.permutations"):
             c = ex.as_coll(args[0], st)
             r = args[1]
+            if name.endswith("combinations") and isinstance(r, Scalar) and r.z.sort() == I and not z3.is_int_value(z3.simplify(r.z)):
+                # combinations(S, r) for a symbolic r: every r-element subset of S exactly once (as a tuple; order within not modelled)
+                if not c.nodup:
+                    raise Unsupported("combinations over a sequence with possible duplicates")
+                if c.mem is None:
+                    raise Unsupported("combinations of an empty literal with symbolic r")
+                ss = set_sort(c.esort)
+                S = fresh("S", ss)
+                ex.assumed.add("itertools.combinations(S, r), symbolic r: every r-element subset of S exactly once")
+                res = Coll("iter", ss, z3.Lambda([S], z3.And(subset(S, c.mem, c.esort), self.card(ex, Coll("frozenset", c.esort, S), st) == r.z)), nodup=True)
+                res.elem_kind = "tuple"
+                return res
             if not (isinstance(r, Scalar) and z3.is_int_value(z3.simplify(r.z)) and z3.simplify(r.z).as_long() == 2):
                 raise Unsupported(f"{name} with r != 2")
             if c.mem is None:
